@@ -9,6 +9,11 @@ dst = os.path.join(here, "seeded", sid)
 os.makedirs(dst, exist_ok=True)
 shutil.copy(os.path.join(d, "patch.diff"), os.path.join(dst, "patch.diff"))
 shutil.copy(os.path.join(d, "demo.py"), os.path.join(dst, "demo.py"))
+rep = os.path.join(os.path.dirname(conf), os.path.basename(conf).replace(".json", ".report.md"))
+if os.path.exists(rep):
+    shutil.copy(rep, os.path.join(dst, "agent_report.md"))
+if os.path.isfile(needs):
+    needs = open(needs).read().strip()
 c = json.load(open(conf))
 r = subprocess.run([sys.executable, os.path.join(here, "tools", "eval_seed.py"), os.path.join(dst, "patch.diff")], capture_output=True, text=True)
 ev = json.loads(r.stdout)
@@ -22,7 +27,7 @@ meta = {
         "demo_exit_with_change": c["demo_rc_with_change"],
         "demo_exit_without_change": c["demo_rc_without_change"],
         "baseline_suite_with_change": c["suite"],
-        "how": "tools/confirm_seed.sh in the scratch worktree: demo.py with the change / with it stashed; full pytest suite with the change compared with BASELINE.json stable_pass (tools/cmp_suite.py)",
+        "how": "tools/confirm_seed.sh in the scratch worktree: demo.py with the change / with it reverse-applied (git apply -R); full pytest suite with the change compared with BASELINE.json stable_pass (tools/cmp_suite.py)",
     },
     "checks": {
         "caught_by_properties": sorted(ev["fired"]),
